@@ -54,7 +54,10 @@ def batches(keys, mod, kdt):
     p = [keys[0], keys[-1]] + coll + free
     p = list(dict.fromkeys(p))
     out += [list(t) for t in itertools.product(p, repeat=2)]
-    out.append([keys[0]] * 5 + [keys[-1]] * 2 + (coll or free or [keys[0]]) * 3)
+    # heavy repetition, more samples than buckets, keys mixed with colliding AND empty-bucket non-keys (smallest and largest) in unequal multiplicities
+    frees = [u for u in nk if u % m not in buckets]
+    out.append([keys[0]] * 5 + [keys[-1]] * 2 + coll * 3 + frees[:1] * 2)
+    out.append([keys[-1]] * 4 + frees[-1:] * 3 + [keys[0]] + coll + sorted(keys)[:1] * 2)
     if nk:
         out.append([nk[0], nk[-1], nk[0]])
     big = [u for u in uni if u >= 2 ** 62]
